@@ -29,13 +29,13 @@ def tla_set(xs):
 
 
 def write_cfg(path, spec, k1, k2, labels, depth, fixed_reg=True, fixed_mul=True, invs=(), props=(), view=True,
-              keylen=2, maxterms=4, vals="ValsM101", constraint=True):
+              keylen=2, maxterms=4, vals="ValsM101", constraint=True, ops="AllOps"):
     with open(path, "w") as f:
         f.write("SPECIFICATION %s\nCONSTANTS\n" % spec)
         f.write("  Labels = %s\n  Vals <- %s\n  MaxKeyLen = %d\n" % (tla_set(labels), vals, keylen))
         f.write('  Kind1 = "%s"\n  Kind2 = "%s"\n' % (k1, k2))
-        f.write("  FixedReg = %s\n  FixedMul = %s\n  MaxTerms = %d\n  Depth = %d\n" %
-                (str(fixed_reg).upper(), str(fixed_mul).upper(), maxterms, depth))
+        f.write("  FixedReg = %s\n  FixedMul = %s\n  MaxTerms = %d\n  Depth = %d\n  Ops <- %s\n" %
+                (str(fixed_reg).upper(), str(fixed_mul).upper(), maxterms, depth, ops))
         for i in invs:
             f.write("INVARIANT %s\n" % i)
         for p in props:
@@ -122,7 +122,9 @@ def run(tier, out, replay=None):
     try:
         if replay:
             rec = json.load(open(replay))["record"]
-            fam = fam_by_name(rec["family"])
+            fam = fam_by_name(rec["family"].rstrip("4"))
+            if rec["family"].endswith("4"):
+                fam = (fam[0] + "4", fam[1], fam[2], ["a", "b", "c", "d"])
             codec = modelobj.LabelCodec(fam[3], labels_from_desc(rec.get("py_labels")))
             traces = modelobj.replay([rec["ops"]], [fam[1], fam[2]], codec)
             validate(out, wd, traces, fam, "replay")
@@ -159,15 +161,17 @@ def run(tier, out, replay=None):
         for famname in ("pcbo", "pcso"):
             fam = fam_by_name(famname)
             name, k1, k2, labels = fam
-            write_cfg(cfg, "Spec", k1, k2, labels[:2], 3, invs=["UpperBounds"])
+            # no VIEW here: the history variable `op` of the destination node identifies the operation of an edge
+            write_cfg(cfg, "Spec", k1, k2, labels[:2], 3, invs=["UpperBounds"], view=False)
             dump = os.path.join(wd, "g_" + name)
-            run_tlc("MCModelObj", cfg, timeout=900, workers=8, extra=["-dump", "dot,actionlabels", dump], name="mo_dump")
-            adj, init, _ = graph.parse_dot(dump + ".dot")
+            run_tlc("MCModelObj", cfg, timeout=900, workers=8, extra=["-dump", "dot", dump], name="mo_dump")
+            adj, init, nlabels = graph.parse_dot(dump + ".dot", want_labels=True)
             os.remove(dump + ".dot")
+            adj, nodeops = graph.relabel_by_dst_op(adj, nlabels)
             walks, covered, total = graph.cover_walks(adj, init, rng, 400000 if thorough else 12000, max_len=40)
             out.add("graph_edges_total", total)
             out.add("graph_edges_replayed", covered)
-            ops_list = [[op_of_label(l) for l in w] for w in walks]
+            ops_list = [[eval(l) for l in w] for w in walks]
             pl, desc = py_labels(rng, labels)
             codec = modelobj.LabelCodec(labels, pl)
             traces = modelobj.replay(ops_list, [k1, k2], codec)
@@ -194,6 +198,27 @@ def run(tier, out, replay=None):
                 if name in ("pcso", "bmat"):
                     out.sample({"family": name, "python_labels": repr(pl), "ops": ops_list[0][:8]})
                 validate(out, wd, traces, fam, "sim")
+        # 4. targeted histories: edits that leave stale labels, then enumerated / reduced forms (4 labels, cubic terms)
+        for famname in ("pcbo", "pcso"):
+            fam = fam_by_name(famname)
+            name, k1, k2, labels = fam
+            labels4 = ["a", "b", "c", "d"]
+            write_cfg(cfg, "Spec", k1, k2, labels4, 99, invs=["StoredCanonical"], view=False, keylen=3, maxterms=5,
+                      constraint=False, ops="StaleOps", vals="Vals01")
+            simdir = os.path.join(wd, "stale_" + name)
+            os.makedirs(simdir)
+            run_tlc("MCModelObj", cfg, timeout=1500, workers=1, simulate="file=%s/tr,num=%d" % (simdir, 6000 if thorough else 500),
+                    extra=["-depth", "9", "-seed", str(out.seed + 29)], name="mo_stale_" + name)
+            ops_list = ops_from_sim(os.path.join(simdir, "tr"))
+            out.add("simulated_behaviours", len(ops_list))
+            pl, desc = py_labels(rng, labels4)
+            codec = modelobj.LabelCodec(labels4, pl)
+            traces = modelobj.replay(ops_list, [k1, k2], codec)
+            for t in traces:
+                t["py_labels"] = desc
+            fam4 = (name + "4", k1, k2, labels4)
+            if traces:
+                validate(out, wd, traces, fam4, "stale")
         out.assumptions += [
             "cached variables/degree/mapping numbering are free components: judged by the C14 contract on the implementation's "
             "own state, not by equality with the spec's prediction (differences are counted as drift)",
